@@ -142,7 +142,7 @@ func (p Precompile) WithdrawDelegatorRewards(
 	// The rewards are paid to the delegator's withdraw address: the caller's balance only changed if that is the caller.
 	withdrawAddr := p.distributionKeeper.GetDelegatorWithdrawAddr(ctx, delegatorHexAddr.Bytes())
 	if isContractDelegator && common.BytesToAddress(withdrawAddr) == contract.CallerAddress {
-		stateDB.(*statedb.StateDB).AddBalance(contract.CallerAddress, res.Amount[0].Amount.BigInt())
+		stateDB.(*statedb.StateDB).AddBalance(contract.CallerAddress, res.Amount.AmountOf(p.stakingKeeper.BondDenom(ctx)).BigInt())
 	}
 
 	return method.Outputs.Pack(cmn.NewCoinsResponse(res.Amount))
